@@ -1762,11 +1762,22 @@ impl<T: Transport, Env: UtpEnvironment> VirtualSocket<T, Env> {
 
             if ((self.user_rx.is_reader_dropped() && self.user_tx.is_writer_dropped())
                 || self.user_tx.is_writer_shutdown())
-                && !self.unsent_data_exists()
                 && !self.state.is_local_fin_or_later()
             {
-                debug!("consumer closed and no data to send, shutting down");
-                self.transition_to_fin_wait_1();
+                if !self.unsent_data_exists() {
+                    debug!("consumer closed and no data to send, shutting down");
+                    self.transition_to_fin_wait_1();
+                } else {
+                    // The user is done with the stream but there is still data to send. If the
+                    // remote never lets us send it (e.g. it advertised a zero window and
+                    // vanished) no other timer is running: don't keep the task alive forever.
+                    self.timers.remote_inactivity_timer.arm(
+                        self.this_poll.now,
+                        self.socket_opts.remote_inactivity_timeout,
+                        false,
+                        "closing, waiting to send remaining data",
+                    );
+                }
             }
 
             // (Re)send a pending FIN if needed.
